@@ -83,7 +83,7 @@ var c06ExprFaults = []faultKind{
 }
 
 var c06StmtFaults = []string{"redecl", "redecl-list", "redecl-nil", "redecl-uninit", "redecl-noreturn", "redecl-param", "redecl-nil-param", "redecl-funcname", "redecl-self", "shadow-builtin-call",
-	"break", "continue", "return", "returnval", "return-multiline"}
+	"break", "continue", "return", "returnval", "return-multiline", "break-in-func", "continue-in-func", "break-in-func-if"}
 
 var c06StmtCtx = []string{"expr", "print", "var", "assign", "varlist", "return", "if-cond", "while-cond", "for-init", "for-cond", "for-inc", "elseif-cond",
 	"ml-binary", "ml-call", "ml-array", "ml-object", "ml-cond"}
@@ -391,6 +391,24 @@ func (e *skEmit) emitFault(n *skNode, ind int) {
 			e.add(ind, fmt.Sprintf("sh%d(5);", t))
 		case "return-multiline":
 			n.Line = e.add(ind, KwReturn+" (\n  5 +\n  6\n);")
+		case "break-in-func", "continue-in-func", "break-in-func-if":
+			// a break / continue in a function body that is not inside a loop of that body
+			kw := KwBreak
+			if f.Stmt == "continue-in-func" {
+				kw = KwContinue
+			}
+			e.add(ind, fmt.Sprintf("%s bf%d() {", KwFun, t))
+			e.add(ind+1, fmt.Sprintf("%s \"in%d\";", KwPrint, t))
+			if f.Stmt == "break-in-func-if" {
+				e.add(ind+1, fmt.Sprintf("%s (%s) {", KwIf, KwTrue))
+				n.Line = e.add(ind+2, kw+";")
+				e.add(ind+1, "}")
+			} else {
+				n.Line = e.add(ind+1, kw+";")
+			}
+			e.add(ind+1, fmt.Sprintf("%s \"after%d\";", KwPrint, t))
+			e.add(ind, "}")
+			e.add(ind, fmt.Sprintf("bf%d();", t))
 		case "break":
 			n.Line = e.add(ind, KwBreak+";")
 		case "continue":
@@ -592,7 +610,7 @@ func (v *skEval) one(n *skNode) {
 			fmt.Fprintf(&v.out, "fb%d\n", n.Tag)
 		}
 		switch n.F.Stmt {
-		case "redecl-param", "redecl-nil-param", "redecl-self", "shadow-builtin-call":
+		case "redecl-param", "redecl-nil-param", "redecl-self", "shadow-builtin-call", "break-in-func", "continue-in-func", "break-in-func-if":
 			fmt.Fprintf(&v.out, "in%d\n", n.Tag)
 		}
 		v.faulted = true
@@ -992,14 +1010,19 @@ func c06Systematic(tier string) []*Case {
 	cleanProgs["varlist-in-loop"] = fmt.Sprintf("%s (%s i = 0; i < 3; i = i + 1) { %s a = i, b = a + 1; %s b; }\n", KwFor, KwVar, KwVar, KwPrint)
 	cleanProgs["decl-in-while"] = fmt.Sprintf("%s n = 0;\n%s (n < 3) { %s x = n; %s g() { %s x; } n = n + 1; %s g() + 1; }\n", KwVar, KwWhile, KwVar, KwFun, KwReturn, KwPrint)
 	cleanProgs["shadowing"] = fmt.Sprintf("%s x = 1;\n{ %s x = 2; { %s x = 3; %s x; } %s x; }\n%s x;\n%s f(x) { { %s x = 9; } %s x; }\n%s f(4);\n", KwVar, KwVar, KwVar, KwPrint, KwPrint, KwPrint, KwFun, KwVar, KwReturn, KwPrint)
+	cleanProgs["return-in-while"] = fmt.Sprintf("%s f() { %s n = 0; %s (%s) { n = n + 1; %s (n == 3) { %s n; } } }\n%s f();\n", KwFun, KwVar, KwWhile, KwTrue, KwIf, KwReturn, KwPrint)
+	cleanProgs["return-in-for"] = fmt.Sprintf("%s f() { %s (%s i = 0; ; i = i + 1) { %s (i == 4) { %s i; } } }\n%s f();\n", KwFun, KwFor, KwVar, KwIf, KwReturn, KwPrint)
+	cleanProgs["return-in-nested-loops"] = fmt.Sprintf("%s f() { %s (%s i = 0; i < 3; i = i + 1) { %s j = 0; %s (j < 3) { j = j + 1; %s (i == 1) { %s i * 10 + j; } } } %s 99; }\n%s f();\n", KwFun, KwFor, KwVar, KwVar, KwWhile, KwIf, KwReturn, KwReturn, KwPrint)
+	cleanProgs["break-continue"] = fmt.Sprintf("%s (%s i = 0; i < 6; i = i + 1) { %s (i == 1) { %s; } %s (i == 4) { %s; } %s i; }\n%s n = 0;\n%s (n < 5) { n = n + 1; %s (n == 2) { %s; } %s n; }\n", KwFor, KwVar, KwIf, KwContinue, KwIf, KwBreak, KwPrint, KwVar, KwWhile, KwIf, KwContinue, KwPrint)
 	cleanProgs["long-while"] = fmt.Sprintf("%s n = 0;\n%s (n < 5000) { n = n + 1; }\n%s n;\n", KwVar, KwWhile, KwPrint)
 	for _, name := range sortedStrKeys(cleanProgs) {
 		prog := cleanProgs[name]
 		want := map[string]string{"dead-fault": "ok\n", "short-circuit": "true\nfalse\n", "zero-trip-loops": "ok\n", "many-returning-calls": "2500\n", "fib-16": "987\n",
 			"deep-recursion-600": "0\n", "many-void-calls": "ok\n", "many-objects": "ok\n", "long-while": "5000\n",
+			"return-in-while": "3\n", "return-in-for": "4\n", "return-in-nested-loops": "11\n", "break-continue": "0\n2\n3\n1\n3\n4\n5\n",
 			"param-shadows-builtin": "4\n", "varlist-in-loop": "1\n2\n3\n", "decl-in-while": "1\n2\n3\n", "shadowing": "3\n2\n1\n4\n"}[name]
 		ccfg := scriptCfg(prog, "")
-		ccfg.Budget = 5000000
+		ccfg.Budget = 3000000
 		cs := &Case{Prop: "C06", Kind: "clean", Sig: "clean:" + name, Program: prog, FaultKind: "none", Runs: []Run{{Role: "clean", Cfg: ccfg}}}
 		cs.ExpectStdout = ptrS(want)
 		cs.Aux = &Aux{C06: &C06Expect{}}
@@ -1091,6 +1114,40 @@ func init() {
 	})
 }
 
+// excessOutput reports a stdout line that occurs more often than the prediction
+// for "before the fault" allows. C06 only says that nothing is written after the
+// fault; whether the output before it is right is other properties' business, so
+// missing or differently rendered lines are not judged here.
+func excessOutput(got, allowed string) (string, bool) {
+	quota := map[string]int{}
+	for _, l := range strings.Split(allowed, "\n") {
+		quota[l]++
+	}
+	for _, l := range strings.Split(got, "\n") {
+		if l == "" {
+			continue
+		}
+		if !c06TagLine(l) {
+			continue
+		}
+		quota[l]--
+		if quota[l] < 0 {
+			return l, true
+		}
+	}
+	return "", false
+}
+
+// c06TagLine: lines the generator itself planted (t<k>, q<k>[in<j>], then/else/fb/wb/... tags, twin, unwind, nil)
+func c06TagLine(l string) bool {
+	for _, p := range []string{"t", "q", "then", "else", "fb", "wb", "fi", "fc", "lg", "cthen", "celse", "cnever", "never", "unwind", "in", "after", "m", "mid", "end", "twin"} {
+		if strings.HasPrefix(l, p) {
+			return true
+		}
+	}
+	return false
+}
+
 func stripTokens(s string, toks []string) string {
 	for _, t := range toks {
 		s = strings.ReplaceAll(s, t, "")
@@ -1136,7 +1193,10 @@ func c06Eval(cs *Case, ctx *EvalCtx) []Violation {
 		case o.FirstErr >= 0 || o.ExitStatus() != 0:
 			add(0, "clean-program-diagnostic", fmt.Sprintf("a program that performs no invalid operation wrote %q / exit %d", o.Stderr, o.ExitStatus()))
 		case o.Stdout != *cs.ExpectStdout:
-			add(0, "clean-program-stdout", fmt.Sprintf("stdout=%q expected %q", o.Stdout, *cs.ExpectStdout))
+			// not C06's claim (it only demands: no diagnostic, status 0): noted, not judged
+			if ctx.Stats != nil {
+				ctx.Stats.Count("info.clean_program_stdout_differs_from_prediction", 1)
+			}
 		}
 		return vs
 	}
@@ -1154,8 +1214,8 @@ func c06Eval(cs *Case, ctx *EvalCtx) []Violation {
 			if _, ln, ok := FirstDiagnostic(o.Stderr); !ok || ln != ax.EnvLine {
 				add(0, "wrong-line", fmt.Sprintf("first diagnostic %q does not name line %d of the failing call", firstLine(o.Stderr), ax.EnvLine))
 			}
-			if o.Stdout != *cs.ExpectStdout {
-				add(0, "stdout-before-fault", fmt.Sprintf("stdout=%q expected %q", o.Stdout, *cs.ExpectStdout))
+			if l, bad := excessOutput(o.Stdout, *cs.ExpectStdout); bad {
+				add(0, "stdout-after-fault", fmt.Sprintf("stdout=%q contains %q, which is not output that precedes the failing call (%q)", o.Stdout, l, *cs.ExpectStdout))
 			}
 		} else if o.ExitStatus() != 0 {
 			add(0, "exit-status", fmt.Sprintf("no diagnostic but exit status %d", o.ExitStatus()))
@@ -1183,8 +1243,8 @@ func c06Eval(cs *Case, ctx *EvalCtx) []Violation {
 			}
 			stopCheck(0, o)
 		}
-		if got := stripTokens(o.Stdout, cs.StripTokens); got != *cs.ExpectStdout {
-			add(0, "stdout-before-fault", fmt.Sprintf("stdout=%q, expected exactly the output before the fault %q", got, *cs.ExpectStdout))
+		if l, bad := excessOutput(stripTokens(o.Stdout, cs.StripTokens), *cs.ExpectStdout); bad {
+			add(0, "stdout-after-fault", fmt.Sprintf("stdout=%q contains %q, which is not output that precedes the fault (%q)", o.Stdout, l, *cs.ExpectStdout))
 		}
 		if o.ExitStatus() != 70 {
 			add(0, "exit-status", fmt.Sprintf("exit status %d, expected 70", o.ExitStatus()))
@@ -1201,15 +1261,16 @@ func c06Eval(cs *Case, ctx *EvalCtx) []Violation {
 		add(1, "twin-no-termination", "fault-free twin exceeded the step budget")
 	case ax.TwinFaulted:
 		// the twin still holds the 'second' fault: it must stop there with 70
-		if tw.ExitStatus() != 70 || tw.Stdout != ax.TwinStdout {
+		if tw.ExitStatus() != 70 {
 			add(1, "twin-second-fault", fmt.Sprintf("twin with only the second fault: exit=%d stdout=%q expected 70 / %q", tw.ExitStatus(), tw.Stdout, ax.TwinStdout))
 		}
 	default:
 		if tw.FirstErr >= 0 || tw.ExitStatus() != 0 {
 			add(1, "twin-diagnostic", fmt.Sprintf("fault-free program wrote %q / exit %d", tw.Stderr, tw.ExitStatus()))
 		}
-		if tw.Stdout != ax.TwinStdout {
-			add(1, "twin-stdout", fmt.Sprintf("fault-free program printed %q, expected %q", tw.Stdout, ax.TwinStdout))
+		if tw.Stdout != ax.TwinStdout && ctx.Stats != nil {
+			// what a fault-free program prints is not C06's claim: noted, not judged
+			ctx.Stats.Count("info.twin_stdout_differs_from_prediction", 1)
 		}
 	}
 	if ctx.Stats != nil {
